@@ -675,7 +675,7 @@ def c20(chk, P):
             chk.ob('R20.1', k, f'position-advance-in-stream-samples#{i}', ok, F.where(e), f'{F.s(e)}: advance in {sorted(u)}')
             n += 1
     chk.floor('R20.1', 8)
-    r20_5(chk, P)
+    r20_6(chk, P)
 
 
 # a unit inconsistency of the unchanged tree that has no effect, with the reason: (function, text of the expression)
@@ -691,8 +691,8 @@ UNIT_ASSUME = {
 }
 
 
-def r20_5(chk, P):
-    chk.rule('R20.5', 'units of measure in the block layer (lib/block.c, lib/synthesis.c): in every function that reads the '
+def r20_6(chk, P):
+    chk.rule('R20.6', 'units of measure in the block layer (lib/block.c, lib/synthesis.c): in every function that reads the '
              'half-rate flag, the decoder-output-sample fields (pcm_current, pcm_returned, centerW and locals derived from '
              'blocksizes>>hs) and the stream-sample fields (granulepos of the decoder and of the block, sample_count, '
              'blocksizes[]) meet only through a shift by the half-rate flag: no addition, subtraction, comparison or store mixes '
@@ -718,13 +718,13 @@ def r20_5(chk, P):
                     tag = f"{'store' if nd['k'] == 'assign' else nd['op']}:{l.get('field')}"
             key = (k, tag) if (k, tag) in UNIT_ASSUME else None
             if key:
-                chk.assumed('R20.5', k, f'unit:{key[1]}', F.where(e), UNIT_ASSUME[key])
+                chk.assumed('R20.6', k, f'unit:{key[1]}', F.where(e), UNIT_ASSUME[key])
                 errs.pop(e)
                 n += 1
-        chk.ob('R20.5', k, 'no-unit-mixing', not errs, F.where(sorted(errs)[0]) if errs else F.where(),
+        chk.ob('R20.6', k, 'no-unit-mixing', not errs, F.where(sorted(errs)[0]) if errs else F.where(),
                f'{len(h.field_stores)} stores to unit-carrying fields, no expression mixes stream samples and decoder-output samples'
                if not errs else '; '.join(sorted(set(errs.values())))[:400])
         n += 1
         for i, (e, fu, u) in enumerate(sorted(set(h.field_stores), key=lambda t: (F.ex[t[0]].get('loc') or [0, 0], t[1]))):
             pass
-    chk.floor('R20.5', 4)
+    chk.floor('R20.6', 4)
